@@ -52,15 +52,17 @@ func (x *Exec) loopInvariants(st *State, fr *Frame, l *Loop, phase string, assum
 		if fr.inl != "" && fr.parent != nil {
 			lbl = fr.inl + "." + lbl
 		}
-		x.emit(st, "inv."+phase, lbl, "loop invariant "+text, goal, props, pos, fr)
+		parts := splitGoal(goal)
+		for pi, part := range parts {
+			l2 := lbl
+			if len(parts) > 1 {
+				l2 = fmt.Sprintf("%s#%d", lbl, pi+1)
+			}
+			x.emit(st, "inv."+phase, l2, "loop invariant "+text, part, props, pos, fr)
+		}
 	}
 	for i, g := range x.autoInvariants(st, fr, l) {
 		emitOrAssume(fmt.Sprintf("auto%d", i), g.text, g.goal, nil)
-	}
-	if ls != nil && assume {
-		for _, u := range ls.Uses {
-			x.useLemma(st, env, u, nil)
-		}
 	}
 	if ls != nil {
 		for i, inv := range ls.Invariants {
@@ -70,6 +72,11 @@ func (x *Exec) loopInvariants(st *State, fr *Frame, l *Loop, phase string, assum
 				lbl = fmt.Sprintf("inv%d", i)
 			}
 			emitOrAssume(lbl, inv.Text, g.T, inv.Props)
+		}
+	}
+	if ls != nil && assume {
+		for _, u := range ls.Uses {
+			x.useLemma(st, env, u, nil)
 		}
 	}
 }
